@@ -559,44 +559,59 @@ Qed.
 (* ====================================================================== *)
 (* 5. objects                                                              *)
 (* ====================================================================== *)
-(* a header is right when either it is a prefix scope made up for a dotted name (no primary id,
-   no line), or its line is the line of an unquoted word placed right in inp whose text ends
-   with the object's name (the text is the name, preceded by "!" for a disabled object and by
-   the leading components "a.b." for the innermost object of a dotted name) *)
-Definition head_ok (inp:str) (h:hdr) : Prop :=
-  (opid h = 0 /\ oline h = 0)
-  \/ (exists w, word_placed inp w /\ wq w = QN /\ wline w = oline h /\ suffix (oname h) (wv w)).
+(* a header is placed when its line is the line of an unquoted word placed right in inp whose text
+   ends with the object's name (the text is the name, preceded by "!" for a disabled object and by
+   the leading components "a.b." for the innermost object of a dotted name).
+   A scope header is right when it is placed, or it is a prefix scope made up for a dotted name: no
+   line, exactly one child, which carries merge_names and whose primary id the scope shares (since
+   /repo 2398dd1 the prefix scopes carry the id of the object they lead to).  A definition header
+   is right only when it is placed. *)
+Definition placed_hd (inp:str) (h:hdr) : Prop :=
+  exists w, word_placed inp w /\ wq w = QN /\ wline w = oline h /\ suffix (oname h) (wv w).
+Definition prefix_hd (h:hdr) (ks:list obj) : Prop :=
+  oline h = 0 /\ exists k, ks = [k] /\ opid h = opid (ohdr k) /\ omerge (ohdr k) = true.
+Definition head_ok (inp:str) (h:hdr) (ks:list obj) : Prop := placed_hd inp h \/ prefix_hd h ks.
 
 Fixpoint obj_lines_ok (inp:str) (o:obj) : Prop :=
   match o with
-  | Def h ws _ => head_ok inp h /\ Forall (word_placed inp) ws
+  | Def h ws _ => placed_hd inp h /\ Forall (word_placed inp) ws
   | Scp h ks _ =>
-      head_ok inp h
+      head_ok inp h ks
       /\ (fix all (l:list obj) : Prop :=
             match l with [] => True | k :: r => obj_lines_ok inp k /\ all r end) ks
   end.
 
 Lemma obj_lines_ok_scp : forall inp h ks a,
-  obj_lines_ok inp (Scp h ks a) <-> head_ok inp h /\ Forall (obj_lines_ok inp) ks.
+  obj_lines_ok inp (Scp h ks a) <-> head_ok inp h ks /\ Forall (obj_lines_ok inp) ks.
 Proof.
-  intros inp h ks a. cbn [obj_lines_ok]. split; intros [H1 H2]; (split; [exact H1|]).
+  intros inp h ks a. cbn [obj_lines_ok]. generalize (head_ok inp h ks). intros P.
+  split; intros [H1 H2]; (split; [exact H1|]).
   - induction ks as [|k r IH]; [constructor|]. destruct H2 as [Hk Hr]. constructor; [exact Hk|apply IH; exact Hr].
   - induction ks as [|k r IH]; [exact I|]. inversion H2; subst. split; [assumption|apply IH; assumption].
 Qed.
 
-Lemma obj_lines_ok_head : forall inp o, obj_lines_ok inp o -> head_ok inp (ohdr o).
-Proof. intros inp [h ws a|h ks a] H; cbn [obj_lines_ok ohdr] in *; apply H. Qed.
-
-Lemma head_ok_rename : forall inp h h', head_ok inp h ->
-  opid h' = opid h -> oline h' = oline h -> suffix (oname h') (oname h) -> head_ok inp h'.
+Lemma placed_hd_rename : forall inp h h', placed_hd inp h ->
+  oline h' = oline h -> suffix (oname h') (oname h) -> placed_hd inp h'.
 Proof.
-  intros inp h h' [[Hp Hl]|(w & Hw & Hq & Hl & Hs)] Ep El Es.
-  - left. split; congruence.
-  - right. exists w. repeat split; try assumption; [congruence|]. eapply suffix_trans; eassumption.
+  intros inp h h' (w & Hw & Hq & Hl & Hs) El Es.
+  exists w. repeat split; try assumption; [congruence|]. eapply suffix_trans; eassumption.
 Qed.
 
-Lemma set_hdr_ok : forall inp o h', obj_lines_ok inp o -> head_ok inp h' -> obj_lines_ok inp (set_hdr o h').
-Proof. intros inp [h ws a|h ks a] h' H Hh; cbn [set_hdr obj_lines_ok] in *; split; [exact Hh|apply H|exact Hh|apply H]. Qed.
+(* a placed header has a real line, a prefix scope has none: the two cases exclude each other *)
+Lemma placed_hd_line : forall inp h, placed_hd inp h -> 1 <= oline h <= 1 + count_nl inp.
+Proof. intros inp h (w & Hw & _ & Hl & _). rewrite <- Hl. apply word_placed_range. exact Hw. Qed.
+
+(* giving an object the last component of its dotted name and the merge_names flag *)
+Lemma relabel_ok : forall inp o n, obj_lines_ok inp o -> suffix n (oname (ohdr o)) ->
+  obj_lines_ok inp (set_hdr o (with_merge (with_name (ohdr o) n) true)).
+Proof.
+  intros inp [h ws a|h ks a] n H Hs; cbn [set_hdr ohdr] in *.
+  - cbn [obj_lines_ok] in *. destruct H as [Hh Hw]. split; [|exact Hw].
+    eapply placed_hd_rename; [exact Hh|reflexivity|exact Hs].
+  - apply obj_lines_ok_scp in H. destruct H as [Hh Hk]. apply obj_lines_ok_scp. split; [|exact Hk].
+    destruct Hh as [Hh|Hh]; [left|right; exact Hh].
+    eapply placed_hd_rename; [exact Hh|reflexivity|exact Hs].
+Qed.
 
 (* the last component of a dotted name is a suffix of the name *)
 Lemma splitdot_shape : forall s, exists h t, splitdot s = h :: t
@@ -623,6 +638,18 @@ Qed.
 Lemma splitdot_nonempty : forall s, splitdot s <> [].
 Proof. intros s. destruct (splitdot_shape s) as (h & t & E & _). rewrite E. discriminate. Qed.
 
+(* what scope.adopt builds below the first prefix scope carries the id of the object and merge_names *)
+Lemma wrap_dotted_pid : forall comps first o, opid (ohdr (wrap_dotted first comps o)) = opid (ohdr o).
+Proof.
+  intros comps first o. destruct comps as [|c [|c2 rest]]; cbn [wrap_dotted]; [reflexivity| |reflexivity].
+  destruct first; [reflexivity|]. destruct o; reflexivity.
+Qed.
+Lemma wrap_dotted_merge : forall comps o, comps <> [] -> omerge (ohdr (wrap_dotted false comps o)) = true.
+Proof.
+  intros comps o Hne. destruct comps as [|c [|c2 rest]]; cbn [wrap_dotted]; [congruence| |reflexivity].
+  destruct o; reflexivity.
+Qed.
+
 Lemma wrap_dotted_ok : forall inp comps first o,
   obj_lines_ok inp o ->
   (comps <> [] -> suffix (last comps []) (oname (ohdr o))) ->
@@ -630,24 +657,30 @@ Lemma wrap_dotted_ok : forall inp comps first o,
 Proof.
   intros inp comps; induction comps as [|c rest IH]; intros first o Ho Hs; cbn [wrap_dotted]; [exact Ho|].
   destruct rest as [|c2 rest'].
-  - destruct first; [exact Ho|]. apply set_hdr_ok; [exact Ho|].
-    eapply head_ok_rename; [apply obj_lines_ok_head; exact Ho|reflexivity|reflexivity|].
-    cbn [with_merge with_name oname]. apply (Hs ltac:(discriminate)).
-  - apply obj_lines_ok_scp. split; [left; split; reflexivity|].
-    constructor; [|constructor]. apply IH; [exact Ho|]. intros _.
-    change (last (c2 :: rest') []) with (last (c :: c2 :: rest') []). apply Hs; discriminate.
+  - destruct first; [exact Ho|]. apply relabel_ok; [exact Ho|]. apply (Hs ltac:(discriminate)).
+  - apply obj_lines_ok_scp. split.
+    + right. split; [reflexivity|]. eexists. split; [reflexivity|]. cbn [opid]. split.
+      * symmetry. apply wrap_dotted_pid.
+      * apply wrap_dotted_merge. discriminate.
+    + constructor; [|constructor]. apply IH; [exact Ho|]. intros _.
+      change (last (c2 :: rest') []) with (last (c :: c2 :: rest') []). apply Hs; discriminate.
 Qed.
 Lemma adopt_ok : forall inp o, obj_lines_ok inp o -> obj_lines_ok inp (adopt o).
 Proof.
   intros inp o Ho. unfold adopt. apply wrap_dotted_ok; [exact Ho|]. intros _. apply splitdot_last_suffix.
 Qed.
+Lemma attach_ohdr_l : forall n v o, ohdr (attach n v o) = ohdr o.
+Proof. intros n v [h ws a|h [|k [|k2 r]] a]; reflexivity. Qed.
 Lemma attach_ok : forall inp n v o, obj_lines_ok inp o -> obj_lines_ok inp (attach n v o).
 Proof.
   intros inp n v o; induction o as [h ws a|h ks a IH] using obj_ind2; intros Ho; cbn [attach].
   - exact Ho.
   - destruct ks as [|k [|k2 ks']]; try exact Ho.
-    apply obj_lines_ok_scp in Ho. destruct Ho as [Hh Hk]. apply obj_lines_ok_scp. split; [exact Hh|].
-    inversion IH; subst. inversion Hk; subst. constructor; [|constructor]. auto.
+    apply obj_lines_ok_scp in Ho. destruct Ho as [Hh Hk]. apply obj_lines_ok_scp. split.
+    + destruct Hh as [Hh|(Hl & k0 & Ek & Hp & Hm)]; [left; exact Hh|right].
+      inversion Ek; subst k0. split; [exact Hl|]. eexists. split; [reflexivity|].
+      rewrite attach_ohdr_l. split; assumption.
+    + inversion IH; subst. inversion Hk; subst. constructor; [|constructor]. auto.
 Qed.
 
 (* ---------- collect_objects *)
@@ -703,8 +736,8 @@ Proof.
   pose proof (strip_bang_suffix _ _ _ Esb) as Hsuf.
   assert (Hlv : forall kind, err_ok o inp kind lv (wline lead)).
   { intros kind. eapply EO_token; [exact Hlead|reflexivity|rewrite Hstr; exact Hsuf]. }
-  assert (Hhd : forall nid', head_ok inp (mkhdr lv dis 0 false nid' (wline lead))).
-  { intros nid'. right. exists lead. split; [exact Hlead|]. split; [apply unq_QN; exact Eql|].
+  assert (Hhd : forall nid', placed_hd inp (mkhdr lv dis 0 false nid' (wline lead))).
+  { intros nid'. exists lead. split; [exact Hlead|]. split; [apply unq_QN; exact Eql|].
     split; [reflexivity|exact Hsuf]. }
   pose proof (stripped_lead_ok _ _ _ Hlead Eql Hsuf) as Hlead'.
   eapply rpost_bind; [apply pop_lines; right; exact Hr|].
@@ -721,7 +754,7 @@ Proof.
     intros [[[kids r4] l4] nid4] (Hr4 & Hkids & Hnid4). cbn [bind].
     destruct (prefix_reserved lv); [err; apply EO_noline; [reflexivity|in_list]|].
     apply IH; [exact Hr4|exact Hnid4|exact Hstart|discriminate|].
-    constructor; [|exact Hfl]. apply adopt_ok. apply obj_lines_ok_scp. split; [apply Hhd|exact Hkids]. }
+    constructor; [|exact Hfl]. apply adopt_ok. apply obj_lines_ok_scp. split; [left; apply Hhd|exact Hkids]. }
   destruct (negb (prefixb ["."] lv)).
   { destruct (negb (is_ident lv)); [destruct (eqs lv [";"]); err; apply Hlv|].
     eapply rpost_bind with (P := fun x => pos_ok inp (fst x) (snd x)).
@@ -775,10 +808,18 @@ Theorem parse_error_cites : forall o inp kind tok l,
   parse o inp = UErr kind tok l -> err_ok o inp kind tok l.
 Proof. intros o inp kind tok l H. pose proof (parse_post o inp) as Hp. rewrite H in Hp. exact Hp. Qed.
 
-(* the objects the parser builds from a name in the source (they have a primary id) have a real line *)
-Lemma head_ok_line : forall inp h, head_ok inp h -> opid h <> 0 ->
-  exists w, word_placed inp w /\ wq w = QN /\ wline w = oline h /\ suffix (oname h) (wv w).
-Proof. intros inp h [[Hp _]|H] Hn; [congruence|exact H]. Qed.
+(* the objects the parser builds from a name in the source have a real line: every definition, and
+   every scope that is not a prefix scope made up for a dotted name (those carry line 0) *)
+Lemma head_ok_line : forall inp o, obj_lines_ok inp o -> (is_def o = true \/ oline (ohdr o) <> 0) ->
+  placed_hd inp (ohdr o) /\ 1 <= oline (ohdr o) <= 1 + count_nl inp.
+Proof.
+  intros inp o Ho Hc.
+  assert (Hp : placed_hd inp (ohdr o)).
+  { destruct o as [h ws a|h ks a]; cbn [ohdr] in *; [apply Ho|].
+    apply obj_lines_ok_scp in Ho. destruct Ho as [[Hh|[Hl _]] _]; [exact Hh|].
+    destruct Hc as [Hc|Hc]; [discriminate Hc|congruence]. }
+  split; [exact Hp|]. apply placed_hd_line. exact Hp.
+Qed.
 
 (* error lines: bounded by the number of lines, given that the oracle answers are *)
 Definition oracle_lines_ok (inp:str) (o:oracle) : Prop :=
@@ -891,7 +932,7 @@ Example parse_lines_example :
   | _ => ([], [])
   end
   = ([(s_ "a", 1, 1); (s_ "b", 2, 4); (s_ "c", 3, 6); (s_ "d", 4, 8); (s_ "e", 5, 8);
-      (s_ "s", 0, 0); (s_ "t", 6, 14); (s_ "g", 7, 15)],
+      (s_ "s", 6, 0); (s_ "t", 6, 14); (s_ "g", 7, 15)],
      [[1]; [4]; [6; 7]; [8]; [8]; []]).
 Proof. vm_compute. reflexivity. Qed.
 
